@@ -247,3 +247,26 @@ Lemma example_in_class :
   run g_ex c_default (orc_of tbl_ex1) false 100 in_ex1 = SyntaxErr 7 /\
   run g_ex c_default (orc_of tbl_ex1) true 100 in_ex1 = SyntaxErr 7.
 Proof. vm_compute. repeat split. Qed.
+
+(* Model: B 'q' | 'b'; B: /[^;\n]+/ 'x'; Comment: /\/\/.*?$/ | /\/\*(.|\n)*?\*\//; *)
+Definition g_cm2 : grammar := (mkGrammar [mkNode KSeq [1;8] None false [77;111;100;101;108]%N true false None None;
+  mkNode KChoice [2;7] None false [77;111;100;101;108]%N true false None None;
+  mkNode KSeq [3;6] None false []%N false false None None;
+  mkNode KSeq [4;5] None false [66]%N true false None None;
+  mkNode (KRegex 0) [] None false []%N false false None None;
+  mkNode (KStr [120]%N None) [] None false []%N false false None None;
+  mkNode (KStr [113]%N None) [] None false []%N false false None None;
+  mkNode (KStr [98]%N None) [] None false []%N false false None None;
+  mkNode KEOF [] None false [69;79;70]%N false false None None;
+  mkNode KChoice [10;11] None false [67;111;109;109;101;110;116]%N true false None None;
+  mkNode (KRegex 1) [] None false []%N false false None None;
+  mkNode (KRegex 2) [] None false []%N false false None None] 0 (Some 9)).
+Definition in_cm2 : list N := [98;47;47;10;47;42;42;47]%N.  (* 'b//\n/**/' *)
+Definition tbl_cm2 : list ((nat * nat) * nat) := [((0,0),3);((0,1),2);((0,2),1);((0,4),4);((0,5),3);((0,6),2);((0,7),1);((1,1),2);((2,4),4)].
+
+(* a Comment rule that is not a single terminal is itself memoized; Arpeggio consults
+   comment_positions even while it is parsing comments, and the cache hides that *)
+Lemma refuted_comment_model :
+  run g_cm2 c_default (orc_of tbl_cm2) false 100 in_cm2 = SyntaxErr 8 /\
+  accepts (run g_cm2 c_default (orc_of tbl_cm2) true 100 in_cm2) = true.
+Proof. vm_compute. repeat split. Qed.
